@@ -1,0 +1,15 @@
+//go:build verif
+
+package subscriber
+
+// VerifC16Hook, when set, is called at every verifPoint of manager.go with the
+// point's name (check C16: a yield/barrier between the existence check and the
+// index removal of TerminateSession). It returns nothing and therefore cannot
+// change control flow.
+var VerifC16Hook func(name string)
+
+func verifPoint(name string) {
+	if h := VerifC16Hook; h != nil {
+		h(name)
+	}
+}
